@@ -2178,6 +2178,9 @@ def remove_dead_ifs(source: str) -> str:
             end = max((e for (_, e) in ranges))
             indent = node.col_offset
             node_start, node_end = core.get_charnos(node, source)
+            if source[node_start:node_end].startswith("elif"):
+                continue  # Its branches are part of the else branch of the if above, not statements next to it
+
             modified_body = " " * indent + re.sub("(?<![^\\n])    ", "", source[start:end]).lstrip()
 
             pre_else = source[:node_start]
